@@ -63,6 +63,7 @@ func checkMapOrder(c *Ctx, rule string, fs []*ssa.Function) int {
 			body := hdr.Succs[0]
 			inBody := func(b *ssa.BasicBlock) bool { return body.Dominates(b) }
 			var problems []string
+			var unknowns []string
 			type acc struct {
 				phi *ssa.Phi
 			}
@@ -103,7 +104,11 @@ func checkMapOrder(c *Ctx, rule string, fs []*ssa.Function) int {
 						if pureCallee(nm) {
 							continue
 						}
-						problems = append(problems, "call to "+nm+" in map order at "+c.W.pos(x.Pos()))
+						if strings.Contains(nm, ").Write") || strings.HasPrefix(nm, "fmt.Fp") || strings.HasPrefix(nm, "fmt.Print") || strings.HasPrefix(nm, "io.WriteString") {
+							problems = append(problems, "output call "+nm+" in map order at "+c.W.pos(x.Pos()))
+						} else {
+							unknowns = append(unknowns, "call to "+nm+" in the loop body at "+c.W.pos(x.Pos()))
+						}
 					case *ssa.BinOp:
 						if isStringType(x.Type()) && x.Op.String() == "+" {
 							// concatenation onto a loop-carried value?
@@ -208,7 +213,13 @@ func checkMapOrder(c *Ctx, rule string, fs []*ssa.Function) int {
 					}
 				}
 			}
-			c.check(len(problems) == 0, rule, what, rg.Pos(), "map range is order-insensitive (keys collected and sorted before use, or only map updates)", strings.Join(problems, "; ")+": two runs may produce different output")
+			st := holds
+			if len(problems) > 0 {
+				st = broken
+			} else if len(unknowns) > 0 {
+				st = unknown
+			}
+			c.judge(st, rule, what, rg.Pos(), "map range is order-insensitive (keys collected and sorted before use, or only map updates)", strings.Join(append(problems, unknowns...), "; ")+": two runs may produce different output")
 		})
 	}
 	return n
